@@ -21,7 +21,7 @@ RULE = ("random operation histories (length <= 12; all histories of length <= 3 
         "iter(handle), asend, re-borrow (of the underlying or of a handle), hand a handle to tool T (26 tools and "
         "aggregations that close their inputs), take j items, then close T / run T to exhaustion / abandon T (drop + "
         "gc with finaliser hooks)} x underlying in {async generator, class with aclose, class without aclose, class "
-        "with aclose/asend/athrow}. Oracle: a shared synchronous iterator on which every operation is mirrored with "
+        "with aclose/asend/athrow, class with aclose/asend but no athrow}. Oracle: a shared synchronous iterator on which every operation is mirrored with "
         "the stdlib counterpart: after EVERY operation the items received and the number of items the underlying "
         "iterator has served must equal the model's; a closed handle yields nothing and does not advance; the "
         "underlying iterator never observes aclose and finally yields exactly the remaining items to its owner. "
@@ -32,7 +32,7 @@ ASSUMPTIONS = ["laziness of the tools themselves is C05's concern; here the stdl
                "athrow is not part of the property's operation list and is not generated"]
 EXHAUSTIVE = {"quick": False, "thorough": False}
 N_RANDOM = {"quick": 12000, "thorough": 300000}
-FLAVS = ["async_gen", "async_class", "async_class_bare", "async_class_full"]
+FLAVS = ["async_gen", "async_class", "async_class_bare", "async_class_full", "async_class_asend"]
 
 STOP = "STOP"
 
@@ -164,7 +164,7 @@ def run_history(case, stats, scoped=None):
     model = CountIt([Item(k, (0, i), truth=k != 0) for i, k in enumerate(keys)])
     viols = []
     head = f"borrow under={case['flav']} keys={keys} ops={case['ops']}"
-    has_asend = case["flav"] in ("async_gen", "async_class_full")
+    has_asend = case["flav"] in ("async_gen", "async_class_full", "async_class_asend")
     counters = Counter()
 
     async def main():
